@@ -3,5 +3,7 @@ EXTENDS Bmff
 L(w, c) == [who |-> w, cls |-> c]
 LiesNone == {L("none", "-")}
 LiesAll  == LiesNone \cup {L(w, c) : w \in {"moov", "uuidm", "kid1", "kidLast", "tail1"}, c \in {"minus1", "plus4", "plus100", "zero", "tiny"}}
+                     \cup {L("uuidmKid", c) : c \in {"plus4", "plus100"}}
 LiesQuick == LiesNone \cup {L(w, c) : w \in {"uuidm", "kidLast", "tail1"}, c \in {"minus1", "plus4", "plus100"}}
+                      \cup {L("uuidmKid", "plus100"), L("moov", "minus1")}
 =============================================================================
